@@ -464,3 +464,6 @@ def run(ctx):
     r8 = ctx.rule("R8", "'completed iff its process ran and exited 0': the exit status reaches the pool - no code of the package makes the kernel reap children behind asyncio's back (SIGCHLD ignored)")
     from .shared import rule_signal_dispositions
     rule_signal_dispositions(ctx, r8, "C13")
+    r10 = ctx.rule("R10", "'the stdout and stderr of a task that ran to its end are stored': stored means they stay - logs are removed by the log cleaning of `gwf run` only (C15.R1)")
+    from .shared import import_rules as _imp13
+    _imp13(ctx, r10, "C15", only={"R1"}, select=lambda c: c.endswith("::delete"))
